@@ -109,7 +109,8 @@ RULES = {
            "the transmitter is busy in a hook, the context cancelled while a transmission is in flight (waiting for the lock in "
            "front of the hook / inside the hook / waiting for the lock in front of Frame(); event request and tick; peer alive or "
            "already gone, so that the transmitter's result is the group's first error): Run returns nil, connection closed, no "
-           "goroutine left, K1) "
+           "goroutine left, the peer of a net.Pipe delaying its reads while two event requests for different messages / a tick "
+           "and a request are under way (pending writes: one frame per request with the ID and payload of ITS message), K1) "
            "over a unix socket and net.Pipe; every transmission of every trace additionally carries the deadline the "
            "frame transmitter was handed (coverage.kinds.deadlines_checked; event messages with cycle times 0 / 0.7 ms / "
            "2 ms / 40 ms / 250 ms / 3 s, runner clock skewed by 0 / -1 h / +1 h / -3 ms from the system clock); one case "
